@@ -106,11 +106,15 @@ def check(F, run, tier):
     else:
         run.add(bad("R-INDEX", inst, "VolFile.cpp", VOL, "after opening: count <= names and count <= whole index entries read (unused trailing slots and a ragged index length are tolerated safely)", "derived: " + "; ".join(txt)))
     # unused trailing slots: counting stops at the first entry whose filenameOffset is 0xFFFFFFFF, and the refusal compares the count of used slots
-    cv = F.fn(VOL + "::CountValidEntries", nparams=0)
+    cv, cv_inlined = F.fn_or_host(VOL + "::CountValidEntries", 0, VOL + "::ReadVolHeader", 0)
     from ..rules_sib import enclosing_if_cond
     from ..facts import NEGATED_CMP
     from ..rules_stream import is_store
     loops = [nd for nd in cv.nodes if nd["k"] in ("ForStmt", "WhileStmt")]
+    if cv_inlined:
+        # inside the host only the loop that subscripts the index entries is the count
+        loops = [nd for nd in loops if "m_IndexEntries" in repr(cv.term(nd["cond"])) or any(
+            cv.n(x)["k"] == "BreakStmt" for x in cv.subtree(nd["body"]))]
     good = False
     counter = None
     if len(loops) == 1:
@@ -165,10 +169,13 @@ def check(F, run, tier):
     ref = [nd for nd in cv.nodes if nd["k"] == "CXXThrowExpr"]
     used = False
     if ref and counter is not None:
-        cid, _ = enclosing_if_cond(cv, ref[0]["id"])
-        t = cv.term(cid) if cid is not None else None
         from ..flow import mentions
-        used = t is not None and mentions(t, counter) and "m_StringTable" in repr(t) and "m_IndexEntryCount" not in repr(t)
+        for r0 in ref:
+            cid, _ = enclosing_if_cond(cv, r0["id"])
+            t = cv.term(cid) if cid is not None else None
+            if t is not None and mentions(t, counter):
+                used = "m_StringTable" in repr(t) and "m_IndexEntryCount" not in repr(t)
+                break
     inst = VOL + "::CountValidEntries#unused-slots"
     if good and (used or not ref):
         run.add(ok("R-SEQ", inst, cv.loc(cv.body), cv.qn, "entries are counted up to the first unused slot (filenameOffset 0xFFFFFFFF); only used slots must have names", "counting continues exactly while index < entry count and filenameOffset != 0xFFFFFFFF; refusal compares the used-slot count"))
